@@ -145,9 +145,6 @@ static void copy_even(uint8_t *luma, uint32_t wd, uint32_t ht, uint32_t stride, 
 }
 /* Copy from recon buffer to out buffer! */
 int svt_dec_out_buf(EbDecHandle *dec_handle_ptr, EbBufferHeaderType *p_buffer) {
-    EbPictureBufferDesc *recon_picture_buf = dec_handle_ptr->cur_pic_buf[0]->ps_pic_buf;
-    EbSvtIOFormat *      out_img           = (EbSvtIOFormat *)p_buffer->p_buffer;
-
     uint8_t *luma = NULL;
     uint8_t *cb   = NULL;
     uint8_t *cr   = NULL;
@@ -157,6 +154,9 @@ int svt_dec_out_buf(EbDecHandle *dec_handle_ptr, EbBufferHeaderType *p_buffer) {
         assert(0 == dec_handle_ptr->show_existing_frame);
         return 0;
     }
+    /* there is no current picture buffer before the first frame is decoded (show_frame is 0 then) */
+    EbPictureBufferDesc *recon_picture_buf = dec_handle_ptr->cur_pic_buf[0]->ps_pic_buf;
+    EbSvtIOFormat *      out_img           = (EbSvtIOFormat *)p_buffer->p_buffer;
 
     uint32_t wd = dec_handle_ptr->frame_header.frame_size.superres_upscaled_width;
     uint32_t ht = dec_handle_ptr->frame_header.frame_size.frame_height;
@@ -576,7 +576,7 @@ EB_API EbErrorType svt_av1_dec_init(EbComponentType *svt_dec_component) {
 EB_API EbErrorType svt_av1_dec_frame(EbComponentType *svt_dec_component, const uint8_t *data,
                                      const size_t data_size, uint32_t is_annexb) {
     EbErrorType return_error = EB_ErrorNone;
-    if (svt_dec_component == NULL)
+    if (svt_dec_component == NULL || data == NULL)
         return EB_ErrorBadParameter;
 
     EbDecHandle *dec_handle_ptr       = (EbDecHandle *)svt_dec_component->p_component_private;
@@ -626,7 +626,7 @@ EB_API EbErrorType svt_av1_dec_get_picture(EbComponentType *   svt_dec_component
     (void)frame_info;
 
     EbErrorType return_error = EB_ErrorNone;
-    if (svt_dec_component == NULL)
+    if (svt_dec_component == NULL || p_buffer == NULL)
         return EB_ErrorBadParameter;
 
     EbDecHandle *dec_handle_ptr = (EbDecHandle *)svt_dec_component->p_component_private;
